@@ -30,7 +30,7 @@ import impl
 import scan_units
 
 ID = 'C04'
-EXTRA_MODULES = ['Mistletoe.Proofs.Wrap']
+EXTRA_MODULES = ['Mistletoe.Proofs.Wrap', 'Mistletoe.Proofs.WrapIndent']
 RULE = ('texts without tabs that do not end in a blank line (spec examples, mutations, splices, random documents, random '
         'strings); quote markers "> " and ">" (the latter only when no line starts with a space); list markers +, -, *, N., '
         'N) with padding 1-4, on texts that start with a non-space character and whose blank lines are empty, excluding '
@@ -44,9 +44,11 @@ PARTIAL = ['the theorems are about the block phase (parse buffer at every depth,
            'of the buffer and the definitions) and is exercised by the exploration on the implementation',
            'quote half: "content is exactly B" carries the hypothesis that the parse of the text does not depend on '
            'Paragraph.parse_setext (false exactly for the recorded finding setext-in-quote)',
-           'list half (_partial): first character after the indentation of a continuation line is not whitespace in the '
-           'sense of str.isspace (excludes the recorded finding unicode-whitespace-edge); blank lines are exactly "\\n"; '
-           'marker indentation 0']
+           'list half (_partial; general form in Props/C04_General.lean: marker at indentation 0-3, whitespace-only lines allowed): '
+           'the first character after the own indentation of a continuation line is not whitespace in the sense of str.isspace '
+           '(the recorded finding unicode-whitespace-edge); the item content is the parse of the text with its spaces-only lines '
+           'read as "\\n" - exactly B when the text has no such line (C04_item_phase_general_h2_partial); every remaining '
+           'hypothesis has a kernel-checked counterexample reproduced on the code (Proofs/WrapIndent.lean)']
 
 THEMATIC = re.compile(r'^ {0,3}(?:([-_*])[ \t]*)(?:\1[ \t]*){2,}$')
 SETEXT_UL = re.compile(r'^ {0,3}(=+|-+) *$')
@@ -98,9 +100,21 @@ def has_setext(doc):
 
 
 def setext_candidate(text):
-    """The class of the recorded finding: the text has a line that could be a setext underline."""
+    """The class of the recorded finding: the text has a line that could be a setext underline - at a place where the pinned
+    Quote.read has setext headings switched off.  Quote.read switches them off for its content and ON again (unconditionally)
+    when it returns, so inside the wrapping quote they are off only until the first block quote of the text itself has been
+    read: an underline that comes after a quoted line of the text is recognised by the pinned code and is NOT this finding."""
     ls = text.split('\n')
-    return any(SETEXT_UL.match(l.lstrip('> ')) for l in ls[1:])
+    seen_quote = False
+    for prev, l in zip(ls, ls[1:]):
+        if QUOTE_LINE.match(prev):
+            seen_quote = True
+        if not seen_quote and SETEXT_UL.match(l.lstrip('> ')):
+            return True
+    return False
+
+
+QUOTE_LINE = re.compile(r'^ {0,3}>')
 
 
 def check_witness(w):
@@ -188,6 +202,10 @@ def cases_for(text, rng, all_markers=False):
 def _cases(ctx):
     rng = ctx.rng('cases')
     texts = [t.replace('\t', ' ') for t in gen_docs.corpus_stream(rng, ctx.budget(1500, 20000))]
+    # a block quote of the text's own followed by a setext heading: the pinned Quote.read leaves setext headings switched ON
+    # after a nested quote, so inside the wrapping quote these headings ARE recognised (unlike those of the recorded finding)
+    texts += ['> a quote\n\nTitle\n=====', '> q\n\nT\n---', '> a\n> b\n\nx\n\nH\n==', '> > deep\n\nT\n=\n\npara', '> q\nlazy\n\nHead\n----\n\n> r\n\nH2\n===',
+              '- i\n\n> q\n\nT\n=']
     texts += ['```\nif x:\n   \n    y()\n```', '***', '___', '--', '* *', 'a\n\n    b', '[foo]: /url\n\n[foo]', '- a\n- b', '> q\nlazy',
               '| a |\n|---|\n| b |', '<div>\nx\n</div>', '# h', 'a  \nb', '1. x\n\n   y']
     cases = []
